@@ -16,7 +16,7 @@ Nanos == {0, 1, 999999999}
 Durations == [kind : {"duration"}, secs : Secs, nanos : Nanos, neg : BOOLEAN]
 Utcs == [kind : {"utc"}, secs : Secs, nanos : Nanos]
 BitLens == {0, 1, 7, 8, 9, 63, 64, 65, 1000}
-BitVecs == [kind : {"bitvec"}, len : BitLens, pattern : {"zeros", "ones", "alt", "last"}]
+BitVecs == [kind : {"bitvec"}, len : BitLens, pattern : {"zeros", "ones", "alt", "last"}]   \* also replayed as a signer set, alone and inside a commit certificate
 Rates == [kind : {"rate"}, burst : {0, 1, 1000000}, refresh : {"0", "1", "max"}]
 (* The hand-written conversions of the consensus message types (roles/src/validator/messages): presence vs emptiness of optional   *)
 (* and repeated fields, extreme numbers. "empty" = present with zero length - NOT the same value as "absent".                      *)
